@@ -267,6 +267,10 @@ func (l *Gsub2_1) apply(ctx *Context, a, b int) int {
 	}
 
 	repl := l.Repl[idx]
+	if len(repl) == 0 {
+		// Replacement sequences must have at least one glyph.
+		return -1
+	}
 	seq[a].GID = repl[0]
 	k := len(repl)
 	if k > 1 {
